@@ -397,16 +397,21 @@ impl MempoolInner {
             Ok(()) => {
                 // check parked for txs able to be promoted
                 let address_bytes = ttx_to_insert.address_bytes();
-                let target_nonce = ttx_to_insert
-                    .nonce()
-                    .checked_add(1)
-                    .expect("failed to increment nonce in promotion");
-                let available_balances = self
-                    .pending
-                    .subtract_contained_costs(address_bytes, current_account_balances.clone());
-                let promotables =
-                    self.parked
-                        .find_promotables(address_bytes, target_nonce, &available_balances);
+                let promotables = match ttx_to_insert.nonce().checked_add(1) {
+                    Some(target_nonce) => {
+                        let available_balances = self.pending.subtract_contained_costs(
+                            address_bytes,
+                            current_account_balances.clone(),
+                        );
+                        self.parked.find_promotables(
+                            address_bytes,
+                            target_nonce,
+                            &available_balances,
+                        )
+                    }
+                    // a transaction with nonce `u32::MAX` has no successor: nothing to promote
+                    None => Vec::new(),
+                };
                 // promote the transactions
                 for ttx_to_promote in promotables {
                     let tx_id_to_promote = *ttx_to_promote.id();
